@@ -470,6 +470,11 @@ func (x *Exec) runStmt(ctx context.Context, w wire.DataWriter, params []wire.Par
 			if err != nil && err != io.EOF && S(op, "onerr") == "ret" {
 				return err // the documented use: propagate a failed read
 			}
+		case "bincopy":
+			if cr != nil {
+				x.binCopy(ctx, cr, st)
+				cr = nil
+			}
 		case "gate":
 			if x.Sched != nil {
 				x.Sched.Gate(ctx, S(op, "p"))
